@@ -47,8 +47,14 @@ impl<'a> Dfa<'a> {
         for cluster in grapheme_clusters {
             dfa.insert(cluster);
         }
+        #[cfg(grex_verif)]
+        crate::verif_hooks::record(|| crate::verif_hooks::Event::Trie(dfa.verif_snapshot()));
         if is_minimized {
             dfa.minimize();
+            #[cfg(grex_verif)]
+            crate::verif_hooks::record(|| {
+                crate::verif_hooks::Event::Minimized(dfa.verif_snapshot())
+            });
         }
         dfa
     }
@@ -268,6 +274,29 @@ impl<'a> Dfa<'a> {
         self.initial_state = new_initial_state.unwrap();
         self.final_state_indices = final_state_indices;
         self.graph = graph;
+    }
+}
+
+#[cfg(grex_verif)]
+impl Dfa<'_> {
+    pub(crate) fn verif_snapshot(&self) -> crate::verif_hooks::Automaton {
+        use petgraph::visit::{EdgeRef, IntoEdgeReferences};
+        let nodes = self.graph.node_indices().collect_vec();
+        let pos = |n: State| nodes.iter().position(|&it| it == n).unwrap();
+        crate::verif_hooks::Automaton {
+            state_count: nodes.len(),
+            start: pos(self.initial_state),
+            finals: nodes
+                .iter()
+                .enumerate()
+                .filter(|(_, n)| self.final_state_indices.contains(&n.index()))
+                .map(|(i, _)| i)
+                .collect(),
+            edges: (&self.graph)
+                .edge_references()
+                .map(|e| (pos(e.source()), pos(e.target()), e.weight().verif_label()))
+                .collect(),
+        }
     }
 }
 
